@@ -37,6 +37,11 @@ func (m *Machine) CallFunction(fn *ssa.Function, args []Value, env []Value) Valu
 	if fn.Blocks == nil {
 		m.unsupported("no body: " + fn.String())
 	}
+	// a model object stands for an *os.File: running the real body of a method that has no
+	// model would act on a zero os.File and return made-up errors — refuse instead
+	if r := fn.Signature.Recv(); r != nil && fn.Pkg != nil && fn.Pkg.Pkg.Path() == "os" && strings.Contains(r.Type().String(), "os.File") {
+		m.unsupported("os.File method without a model: " + fn.String())
+	}
 	m.Res.Funcs[fn.String()] = true
 	m.callStack = append(m.callStack, fn)
 	defer func() {
